@@ -632,5 +632,36 @@ func builtinPrograms() []*Program {
 			"audit/v1/audit.j5s": j5s("package audit.v1", "import users.v1", "", "object Entry {", "  field zone object:users.v1.Zone", "}"),
 		},
 	})
+
+	// 16. LARGE files: 70 and 130 root elements in one file (objects with and without descriptions,
+	// enums, oneofs), where size-triggered code paths (batching, parallel printing, buffers that
+	// grow) would kick in; a second package uses a few of them.
+	big := func(pkg string, n int) string {
+		lines := []string{"package " + pkg, ""}
+		for i := 0; i < n; i++ {
+			switch i % 5 {
+			case 0:
+				lines = append(lines, fmt.Sprintf("object Item%03d {", i), "  | Item number "+fmt.Sprint(i)+".", "", "  field itemId key:uuid", fmt.Sprintf("  field note%d string", i), "}", "")
+			case 1:
+				lines = append(lines, fmt.Sprintf("object Item%03d {", i), "  field name string", fmt.Sprintf("  field prev object:Item%03d", i-1), "}", "")
+			case 2:
+				lines = append(lines, fmt.Sprintf("enum Kind%03d {", i), "  option ALPHA", "  option BETA", "}", "")
+			case 3:
+				lines = append(lines, fmt.Sprintf("oneof Choice%03d {", i), "  | One of two.", "", fmt.Sprintf("  option first object:Item%03d", i-3), fmt.Sprintf("  option second object:Item%03d", i-2), "}", "")
+			default:
+				lines = append(lines, fmt.Sprintf("object Item%03d {", i), fmt.Sprintf("  field kind enum:Kind%03d", i-2), fmt.Sprintf("  field choice oneof:Choice%03d", i-1), "}", "")
+			}
+		}
+		return j5s(lines...)
+	}
+	out = append(out, &Program{
+		Name:     "builtin/many_elements",
+		Packages: []string{"bulk.v1", "user.v1"},
+		Files: map[string]string{
+			"bulk/v1/seventy.j5s": big("bulk.v1", 70),
+			"bulk/v1/more.j5s":    strings.ReplaceAll(strings.ReplaceAll(strings.ReplaceAll(big("bulk.v1", 130), "Item", "Part"), "Kind", "Sort"), "Choice", "Pick"),
+			"user/v1/user.j5s":    j5s("package user.v1", "import bulk.v1", "", "object Holder {", "  field item object:bulk.v1.Item004", "  field part object:bulk.v1.Part129", "  field kind enum:bulk.v1.Kind002", "}"),
+		},
+	})
 	return out
 }
